@@ -2,6 +2,7 @@ package readline
 
 import (
 	"github.com/reeflective/readline/internal/zzverif"
+	"strings"
 )
 
 // zzWordStart: index after the last blank before position p (0 if none).
@@ -39,14 +40,43 @@ func ZZ_C14_Local() {
 	w := zzWordStart(b, p)
 	word := string(b[w:p])
 	tails := []string{"x", "yz", "w"}
+	style := zzverif.Param("style")
 	var cands []string
 	for i := 0; i < m; i++ {
-		cands = append(cands, word+tails[i])
+		if style == "icase" {
+			// candidates that match the word only when case is ignored
+			cands = append(cands, strings.ToUpper(word)+tails[i])
+		} else {
+			cands = append(cands, word+tails[i])
+		}
 	}
 	script := &zzverif.Script{}
 	rl := zzSession(script)
-	rl.Completer = func(line []rune, cursor int) Completions { return CompleteValues(cands...) }
-
+	// the ways an application can describe its candidates
+	rl.Completer = func(line []rune, cursor int) Completions {
+		switch style {
+		case "described":
+			var args []string
+			for i, c := range cands {
+				args = append(args, c, "description "+string(rune('a'+i)))
+			}
+			return CompleteValuesDescribed(args...)
+		case "nospace":
+			return CompleteValues(cands...).NoSpace()
+		case "tags":
+			first := CompleteValues(cands[:1]...).Tag("first")
+			if len(cands) > 1 {
+				return first.Merge(CompleteValues(cands[1:]...).Tag("others"))
+			}
+			return first
+		case "suffix":
+			return CompleteValues(cands...).Suffix("/")
+		}
+		return CompleteValues(cands...)
+	}
+	// TAB runs complete (default), or menu-complete when the user bound it so (bash style)
+	keys := "\t"
+	menuCmd := zzverif.Param("cmd") == "menu-complete"
 	sfx := ""
 	if multibyte {
 		sfx = "/multibyte-word"
@@ -63,8 +93,14 @@ func ZZ_C14_Local() {
 		case wait == 0:
 			rl.line.Set(zzCopy(b)...)
 			rl.cursor.Set(p)
+			if style == "icase" {
+				rl.Config.Set("completion-ignore-case", true)
+			}
+			if menuCmd {
+				rl.Config.Bind("emacs", keys, "menu-complete", false)
+			}
 			for i := 0; i < k; i++ {
-				script.Chunks = append(script.Chunks, []byte("\t"))
+				script.Chunks = append(script.Chunks, []byte(keys))
 			}
 			if abort {
 				script.Chunks = append(script.Chunks, []byte("\x03"))
@@ -80,14 +116,18 @@ func ZZ_C14_Local() {
 				zzverif.Reach("candidate-inserted")
 			}
 			for _, c := range cands {
-				want := append(append(append([]rune{}, b[:w]...), []rune(c)...), b[p:]...)
-				if zzSameRunes(got, want) && rl.cursor.Pos() == w+len([]rune(c)) {
-					matched = true
+				// the word becomes the candidate's value (with the suffix the application asked
+				// for); a single candidate is accepted at once, with a space appended
+				values := []string{c}
+				if style == "suffix" {
+					values = []string{c + "/"}
 				}
-				// a single candidate is accepted at once, with a space appended
 				if m == 1 {
-					want2 := append(append(append([]rune{}, b[:w]...), []rune(c+" ")...), b[p:]...)
-					if zzSameRunes(got, want2) && rl.cursor.Pos() == w+len([]rune(c))+1 {
+					values = append(values, values[0]+" ")
+				}
+				for _, v := range values {
+					want := append(append(append([]rune{}, b[:w]...), []rune(v)...), b[p:]...)
+					if zzSameRunes(got, want) && rl.cursor.Pos() == w+len([]rune(v)) {
 						matched = true
 					}
 				}
